@@ -1,5 +1,19 @@
 # Registered checks: property id -> harness files, entries, bounds.  See DESIGN.md section 3.
 SPECS = {
+ "C15": {
+  "explanation": "Full stack on the HDF5 model (compound datasets, member-by-name conversion, vlen strings): a 3-column frame (Int64, String, Double) is driven through bounded histories of rows(n) / writeRow / writeCell(s) / writeColumn(offset,count) with symbolic payloads, and after every step and after reopen all cells are read back through readRow, readCell (by index and name) and readColumn (resize, offset) and compared with a reference table; a second entry covers Bool/Int32/UInt32/UInt64 cells and schema mismatch.",
+  "bounds": {"quick": {"history_steps": 2, "rows": "0..3", "columns": 3, "string_bytes": "0..2"}, "thorough": {"history_steps": 3}},
+  "outside": ["schemas with more than 4 columns", "more than 3 rows", "long strings"],
+  "assumptions": ["libhdf5 replaced by h5model (compound member conversion by name; unwritten vlen strings read as NULL pointers, as libhdf5 does)"],
+  "harnesses": [{"file": "C15_frames.cpp", "defines": {"quick": ["-DVH_STEPS=2"], "thorough": ["-DVH_STEPS=3"]},
+     "entries": [{"entry": "vh_c15_frame"}, {"entry": "vh_c15_types"}]}]},
+ "C14": {
+  "explanation": "Full stack on the HDF5 model: for each of the 7 value types a property is driven through a bounded history of assign (length 0..3, symbolic payloads over the full value range incl. NaN/inf/extremes, strings of 0..2 symbolic bytes) / clear / unit / uncertainty / wrong-type assignment, and values(), valueCount(), dataType(), unit(), uncertainty() are compared with the last assignment after every step and after reopen.",
+  "bounds": {"quick": {"history_steps": 2, "vector_length": "0..3", "string_bytes": "0..2"}, "thorough": {"history_steps": 3, "vector_length": "0..4"}},
+  "outside": ["vector lengths above the bound (the statement's 0..64)", "long strings", "old-style (< 1.1.1) compound values"],
+  "assumptions": ["libhdf5 replaced by h5model (same-type element copy, vlen strings)"],
+  "harnesses": [{"file": "C14_props.cpp", "defines": {"quick": ["-DVH_STEPS=2", "-DVH_MAXLEN=3"], "thorough": ["-DVH_STEPS=3", "-DVH_MAXLEN=4"]},
+     "entries": [{"entry": "vh_c14_values", "label": "vh_c14_values.t%d" % t, "fix": {"type": t}} for t in range(7)] + [{"entry": "vh_c14_create"}]}]},
  "C13": {
   "explanation": "Full stack on the HDF5 model: bounded append histories over the five descriptor kinds with symbolic interval, offset and tick values (all non-NaN doubles), read back through getDimension/dimensions()/as*Dimension after every step and after reopen; setters on existing descriptors; alias dimension mirrored in both directions with symbolic data.",
   "bounds": {"quick": {"append_steps": 2, "ticks": "0..3 symbolic", "labels": "0..2", "data_frame_column": "0..4 of 3"}, "thorough": {"append_steps": 3}},
